@@ -5,7 +5,7 @@ counterexample is a minimal schedule exploiting the missing guard. Run offline (
 import json, subprocess, sys, os, hashlib
 GUARDS = ["unbindUid", "bindStaleLister", "bindUidGuard", "bindPoolSize", "bindReuseReserve", "resyncReread", "apiDoubleCheck",
           "podlock:filter", "podlock:bind", "podlock:unbind", "podlock:resync", "podlock:apirelease",
-          "dplock:filter", "dplock:unbind", "dplock:resync", "podlock:syncall"]
+          "dplock:filter", "dplock:unbind", "dplock:resync", "podlock:syncall", "syncReread"]
 PROPS = ["LiveAnnotationsDisjoint", "LiveKeepsIP", "MemStoreAgreeM", "PoolCapM", "LiveAssignedToOwnNode",
          "StickyM", "ReleaseJustifiedM", "CloudSingleNodeM", "UnassignBeforeHandoverM", "NoUnassignWhileLiveM"]
 PLAN = [  # cfg, overrides, guards relevant
@@ -18,6 +18,9 @@ PLAN = [  # cfg, overrides, guards relevant
     ("ipam_dp_immutable_q.cfg", {"MaxOps": "5"}, ["dplock:unbind", "dplock:filter", "apiDoubleCheck", "unbindUid", "resyncReread"]),
     # the periodic pod-ip sync without the pod lock, and the other guards with the sync running
     ("ipam_sts_syncall_q.cfg", {}, ["podlock:syncall", "unbindUid", "bindStaleLister", "bindUidGuard"]),
+    # defect V (found on the faithful model before the fix): the periodic sync without its re-read of the pod under the lock
+    # (13 M states; the stored schedule spec/schedules/attack_sts_syncall_reread.json is this run's counterexample)
+    ("ipam_sts_syncall_t.cfg", {}, ["syncReread"]),
 ]
 outdir = "/verif/spec/schedules"
 timeout = os.environ.get("ATK_TIMEOUT", "600")
